@@ -166,6 +166,38 @@ theorem C18_producer_wf (m m' : PMap) (t : String) (ps : List Int) (start : Opti
       · rw [PMap.get_set_other _ _ _ _ he] at hg
         exact hm t' st' hg
 
+/-- A call for topic `t` that RAISES (`Producer._next_partition` as written: the constructor's or
+    `.partition`'s `_set_partitions` has already run when `randint`/`next` raises) leaves only
+    well-formed state behind: whatever is then stored for `t` is `WF` (so `C18_rr_fair`,
+    `C18_rr_restart` and `C18_producer_per_topic_fair` apply again from it), an existing partitioner
+    `st0` is left exactly as `rrAfterError st0 ps`, and every other topic's entry is unchanged. -/
+theorem C18_producer_after_error (m : PMap) (t : String) (ps : List Int) (start : Option Nat)
+    (hm : ∀ t st, m.get t = some st → WF st) :
+    (∀ st, (nextPartitionRRAfterError m t ps start).get t = some st → WF st) ∧
+    (∀ st0, m.get t = some st0 →
+      (nextPartitionRRAfterError m t ps start).get t = some (rrAfterError st0 ps)) ∧
+    (∀ t', t' ≠ t → (nextPartitionRRAfterError m t ps start).get t' = m.get t') := by
+  refine ⟨fun st hg => ?_, fun st0 h0 => ?_, fun t' hne => nextPartitionRRAfterError_other m ps start hne⟩
+  · unfold nextPartitionRRAfterError at hg
+    cases hmt : m.get t with
+    | some s0 =>
+      rw [hmt] at hg
+      simp only [PMap.get_set_same, Option.some.injEq] at hg
+      subst hg
+      exact rrAfterError_wf s0 ps (hm t s0 hmt)
+    | none =>
+      rw [hmt] at hg
+      cases hsp : setPartitions ps start with
+      | none => rw [hsp] at hg; simp only at hg; rw [hmt] at hg; exact absurd hg (by simp)
+      | some s1 =>
+        rw [hsp] at hg
+        simp only [PMap.get_set_same, Option.some.injEq] at hg
+        subst hg
+        exact rrAfterError_wf s1 ps (setPartitions_wf hsp)
+  · unfold nextPartitionRRAfterError
+    rw [h0]
+    exact PMap.get_set_same _ _ _
+
 /-! Non-vacuity: concrete states and inputs meeting the hypotheses. -/
 example : WF { parts := [0, 1, 2], rot := rotateN 2 [0, 1, 2] } := by show (rotateN 2 [0,1,2]).Perm [0,1,2]; exact rotateN_perm 2 _
 example : ([0, 1, 5] : List Int).Pairwise (· ≤ ·) ∧ ([0, 1, 5] : List Int) ≠ [] := by decide
@@ -175,6 +207,15 @@ example : rrPicks { parts := [9], rot := [9] } [0, 1, 5] (some 2) 6
 example : (PMap.get [("a", ⟨[0,1], [1,0]⟩)] "a" = some ⟨[0,1], [1,0]⟩) ∧
     ([⟨"a", [0,1], none⟩, ⟨"b", [7], none⟩, ⟨"a", [0,1], none⟩] : List Call).filter (fun c => c.topic = "a")
       = List.replicate (1 * 2) ⟨"a", [0,1], none⟩ := by decide
+
+/-! The producer after a raising call, as observed on the code (`[0, RuntimeError, 0, 1]`, the other
+topic undisturbed; with `randomStart` a constructor that raises stores nothing). -/
+example : picksOf "t" [] [⟨"t", [0,1], none⟩, ⟨"u", [7,8], none⟩, ⟨"t", [], none⟩, ⟨"t", [0,1], none⟩,
+    ⟨"u", [7,8], none⟩, ⟨"t", [0,1], none⟩] = [some 0, none, some 0, some 1] := by decide
+example : nextPartitionRRAfterError [("t", ⟨[0,1], [1,0]⟩), ("u", ⟨[7,8], [8,7]⟩)] "t" [] none
+    = [("t", ⟨[], []⟩), ("u", ⟨[7,8], [8,7]⟩)] := by decide
+example : nextPartitionRR [] "t" [] none = none ∧ nextPartitionRRAfterError [] "t" [] none = [("t", ⟨[], []⟩)] ∧
+    nextPartitionRR [] "t" [] (some 0) = none ∧ nextPartitionRRAfterError [] "t" [] (some 0) = [] := by decide
 
 example : keyBytes (.text [0x41, 0x30a]) = some [0x41, 0xcc, 0x8a] ∧ keyBytes (.text [0xc5]) = some [0xc3, 0x85] ∧
     keyBytes (.text [0xd800]) = none := by decide
@@ -260,6 +301,7 @@ C18_rr_restart
 C18_rr_fair_nodup
 C18_producer_per_topic_fair
 C18_producer_wf
+C18_producer_after_error
 C18_text_bytes_agree
 C18_depends_only_on_bytes_and_list
 C18_key_java_colocated
